@@ -39,7 +39,7 @@ def parse_wc_line(line: str):
 class WcMachine(Machine):
     name = "M-WC"
     PROPS = ("C05",)
-    QUICK_RUNS = {"C05": 1600}
+    QUICK_RUNS = {"C05": 6000}
     THOROUGH_BUDGET_S = 600
     RULE = (
         "one evaluation = one seeded history (<= 40 ops) over <= 6 live Wildcard/Address objects "
@@ -114,6 +114,9 @@ class WcMachine(Machine):
             if s is None:
                 items.append("-")
             else:
+                if s["kind"] == "grp":
+                    items.append("grp:" + ",".join(f"{b & ~m & ALL:x}/{m:x}" for b, m in s["members"]))
+                    continue
                 items.append(f"{s['kind']}:{s['base'] & ~s['mask'] & ALL:x}:{s['mask']:x}:{s['limit']}")
         return "|".join(items) + f"|memo={int(self.memo.present)}"
 
@@ -226,6 +229,9 @@ class WcMachine(Machine):
                 else:
                     line = self._gen_wc_line(w, slot["limit"])
                 return dict(op="wc_set_line", t=t, line=line)
+            if slot["kind"] == "grp":
+                return dict(op="grp_set_member", t=t, i=w.randint(0, 9),
+                            line=self._gen_addr_line(w, slot["limit"], slot["plat"], "Address"))
             return dict(op="addr_set_line", t=t, line=self._gen_addr_line(w, slot["limit"],
                                                                         slot["plat"], slot["cls"]))
         if r < 0.56:
@@ -237,6 +243,8 @@ class WcMachine(Machine):
             what = s.choice(["ipnets", "ipnets", "ipnets", "ipnet", "line", "data", "copy"])
             return dict(op="wc_query", t=t, what=what, memo=self._memo_schedule(st))
         what = s.choice(["ipnets", "ipnets", "prefixes", "subnets", "wildcards", "ipnet", "data"])
+        if slot["kind"] == "grp":
+            return dict(op="grp_query", t=t, memo=self._memo_schedule(st))
         return dict(op="addr_query", t=t, what=what, memo=self._memo_schedule(st))
 
     def _gen_addr_line(self, w, limit, plat, cls):
@@ -265,7 +273,15 @@ class WcMachine(Machine):
             return f"{ip(base)}/{32 - split_mask(mask)[0]}"
         return f"{ip(base)} {ip(mask)}"
 
+    def _gen_grp_new(self, w, limit):
+        plat = w.choice(["ios", "nxos"])
+        lines = [self._gen_addr_line(w, limit, plat, "Address") for _ in range(w.randint(1, 4))]
+        lines = [ln for ln in lines if ln != "any"] or ["host 10.0.0.1"]
+        return dict(op="grp_new", platform=plat, limit=limit, lines=lines)
+
     def _gen_addr_new(self, w, limit):
+        if w.random() < 0.3:
+            return self._gen_grp_new(w, limit)
         plat = w.choice(["ios", "nxos"])
         cls = w.choice(["Address", "Address", "AddressAg"])
         return dict(op="addr_new", cls=cls, platform=plat, limit=limit,
@@ -559,6 +575,11 @@ class WcMachine(Machine):
         if slot is None:
             return "noop"
         obj = slot["obj"]
+        if slot["kind"] == "grp":
+            obj.platform = op["p"]
+            slot["plat"] = op["p"]
+            self._check_grp(obj, slot, f"after group platform={op['p']}")
+            return "ok"
         if slot["kind"] == "addr":
             if slot["cls"] == "AddressAg":
                 return "noop"  # members change spelling domain with the platform (C02's business)
@@ -679,6 +700,84 @@ class WcMachine(Machine):
         slot["base"], slot["mask"] = base, mask
         if slot["queried"]:
             slot["reassigned_after_q"] = True
+        return "ok"
+
+    # address-group ops: members are wildcards queried through the same memo
+    def _check_grp(self, g, slot, where):
+        want_nets = 0
+        for (base, mask), item in zip(slot["members"], g.items):
+            if len(split_mask(mask)[1]) > ENUM_K:
+                return
+            self._check_ipnets(item.ipnets(), base & ~mask & ALL, mask, where + " member.ipnets()")
+            want_nets += 1 << len(split_mask(mask)[1])
+        nets = g.ipnets()
+        if len(nets) != want_nets:
+            self._fail("C05.group-ipnets", f"{where}: group.ipnets() has {len(nets)} networks, "
+                                           f"members give {want_nets}")
+        pos = 0
+        for base, mask in slot["members"]:
+            k = 1 << len(split_mask(mask)[1])
+            self._check_ipnets(nets[pos:pos + k], base & ~mask & ALL, mask,
+                               where + " group.ipnets() slice")
+            pos += k
+        if g.prefixes() != [str(n) for n in nets]:
+            self._fail("C05.group-prefixes", f"{where}: prefixes() != ipnets()")
+        want_w = [f"{ip(b & ~m & ALL)} {ip(m)}" for b, m in slot["members"]]
+        if g.wildcards() != want_w:
+            self._fail("C05.group-wildcards", f"{where}: wildcards()={g.wildcards()} want {want_w}")
+
+    def _op_grp_new(self, op):
+        plat, limit = op["platform"], op["limit"]
+        name = "object-group G" if plat == "ios" else "addrgroup G"
+        members = []
+        for ln in op["lines"]:
+            pm = self._parse_any(ln, "Address", plat)
+            if pm is None or len(split_mask(pm[1])[1]) > limit:
+                return "noop"
+            members.append(pm)
+        g = Address(name, platform=plat, max_ncwb=limit, items=list(op["lines"]))
+        slot = dict(kind="grp", cls="Address", obj=g, members=members, limit=limit, plat=plat,
+                    base=0, mask=0, queried=False, cleared_since_q=False)
+        self._put(slot)
+        self._check_grp(g, slot, "after group new")
+        return "ok"
+
+    def _op_grp_set_member(self, op):
+        i, slot = self._slot(op["t"])
+        if slot is None or slot["kind"] != "grp":
+            return "noop"
+        g = slot["obj"]
+        pm = self._parse_any(op["line"], "Address", slot["plat"])
+        if pm is None or not g.items or op["line"] == "any":
+            return "noop"
+        j = op["i"] % len(g.items)
+        k = len(split_mask(pm[1])[1])
+        if slot["queried"]:
+            self.probes["stale_window" if not slot["cleared_since_q"] else "evicted_between"] += 1
+        try:
+            g.items[j].line = op["line"]
+        except NetmaskValueError:
+            if k <= slot["limit"]:
+                self._fail("C05.reject-iff", f"member.line={op['line']!r} k={k} rejected")
+            self._check_grp(g, slot, "after rejected member reassignment")
+            return "NetmaskValueError"
+        if k > slot["limit"]:
+            self._fail("C05.reject-iff", f"member.line={op['line']!r} k={k} accepted over limit")
+        slot["members"][j] = pm
+        if slot["queried"]:
+            slot["reassigned_after_q"] = True
+        return "ok"
+
+    def _op_grp_query(self, op):
+        i, slot = self._slot(op["t"])
+        if slot is None or slot["kind"] != "grp":
+            return "noop"
+        if slot.get("reassigned_after_q"):
+            self.reassigned_then_queried = True
+            self.probes["query_after_reassign"] += 1
+        self._check_grp(slot["obj"], slot, "group query")
+        slot["queried"] = True
+        slot["cleared_since_q"] = False
         return "ok"
 
     def _op_addr_query(self, op):
